@@ -172,7 +172,7 @@ GHOST static void chan_final(void) {
     vs_label_add("chan_messages", total);
     vs_label_add("chan_recv_blocked", ch_recv_blocked);
     vs_label_add("chan_send_woke", ch_send_woke);
-    if (total > 0 && (ch_recv_blocked > 0 || ch_send_woke > 0 || g_case.threads > 1)) vs_label_add("nontrivial", 1);
+    if (total > 0 && (ch_recv_blocked > 0 || ch_send_woke > 0 || g_case.threads > 1)) rt_nontrivial("chan");
   }
   vs_rt_exit();
 }
@@ -280,7 +280,7 @@ GHOST static void ms_final(void) {
     gms_quiescent();
     vs_label_add("msig_blocked_waits", ms_blocked_returned);
     vs_label_add("msig_coalesced_or_flag", ms_raise0);
-    if (ms_blocked_returned > 0) vs_label_add("nontrivial", 1);
+    if (ms_blocked_returned > 0) rt_nontrivial("msig");
   }
   vs_rt_exit();
 }
@@ -354,7 +354,7 @@ GHOST static void sleep_final(void) {
   if (cfg_get("sleepers", 0)) {
     vs_label_add("sleep_calls", sl_calls);
     vs_label_max("sleep_max_ticks", sl_max_ticks);
-    if (sl_calls > 0) vs_label_add("nontrivial", 1);
+    if (sl_calls > 0) rt_nontrivial("sleep");
   }
   vs_rt_exit();
 }
